@@ -25,6 +25,7 @@ pub enum Kind {
     TimedOut,
     UnexpectedEof,
     ConnectionReset,
+    WouldBlock,
 }
 
 impl Kind {
@@ -36,10 +37,11 @@ impl Kind {
             Kind::TimedOut => ErrorKind::TimedOut,
             Kind::UnexpectedEof => ErrorKind::UnexpectedEof,
             Kind::ConnectionReset => ErrorKind::ConnectionReset,
+            Kind::WouldBlock => ErrorKind::WouldBlock,
         }
     }
-    pub const ALL: [Kind; 6] =
-        [Kind::Other, Kind::BrokenPipe, Kind::StorageFull, Kind::TimedOut, Kind::UnexpectedEof, Kind::ConnectionReset];
+    pub const ALL: [Kind; 7] =
+        [Kind::Other, Kind::BrokenPipe, Kind::StorageFull, Kind::TimedOut, Kind::UnexpectedEof, Kind::ConnectionReset, Kind::WouldBlock];
 }
 
 #[derive(Clone, Debug, Default, PartialEq, Eq, Serialize, Deserialize)]
